@@ -61,12 +61,7 @@ impl Default for DcpsStatusCondition {
 impl DcpsStatusCondition {
     pub fn add_communication_state(&mut self, state: StatusKind) {
         self.status_changes.push(state);
-        if self.get_trigger_value() {
-            for w in self.registered_notifications.drain(..) {
-                // Do not care if there is no channel waiting for response
-                w.notify();
-            }
-        }
+        self.notify_if_triggered();
     }
 
     pub fn remove_communication_state(&mut self, state: StatusKind) {
@@ -79,6 +74,17 @@ impl DcpsStatusCondition {
 
     pub fn set_enabled_statuses(&mut self, mask: StatusMask) {
         self.enabled_statuses = mask;
+        // Enabling a status which has already changed makes the condition true
+        self.notify_if_triggered();
+    }
+
+    fn notify_if_triggered(&mut self) {
+        if self.get_trigger_value() {
+            for w in self.registered_notifications.drain(..) {
+                // Do not care if there is no channel waiting for response
+                w.notify();
+            }
+        }
     }
 
     pub fn get_trigger_value(&self) -> bool {
